@@ -1024,7 +1024,10 @@ def run(chk):
         "scope proved: the MiniIncan fragment listed in coverage.constructs; everything outside it is not covered by C01 yet",
         "integer overflow is not specified by the documentation: source runs ending in `unspecified(overflow)` are excluded from the theorem "
         "and compared only against the Rust-side model (wrapping)",
-        "one test function per Coq case; call/return between user functions is outside the fragment",
+        "one test function per Coq case; call/return between user functions is outside the Coq fragment",
+        "models, lists, lvalue paths, slices, len, calls with keyword arguments, mut list parameters, return values and keyword-like names "
+        "(coverage.wide_constructs_oracle_only) are NOT in the Coq model: they are exercised by the differential oracle only, expected output "
+        "from the Python reference evaluator in checks/c01.py (WEval)",
     ]
     known = load_findings(chk, "C01")
     res = chk.proof_stage("C01", allow_axioms=(), rs2v_units=["CoreNum", "StdNum"])
@@ -1033,6 +1036,10 @@ def run(chk):
     cases = gen_cases(chk, 330 if quick else 2400)
     chk.coverage["constructs"] = CONSTRUCTS
     fails, corr_bad, stats = pipeline(chk, dbg, cases, known, n_batches=1 if quick else 8, batch_size=150, n_panic=4 if quick else 16)
+    wfails, wstats = wide_oracle(chk, dbg, 70 if quick else 400, "c01")
+    fails += wfails
+    chk.coverage["wide_constructs_oracle_only"] = WIDE_CONSTRUCTS
+    chk.coverage.update(wstats)
     if not stats["model_ok"]:
         res["tie_ok"] = False
         res["broken"].append({"what": "model", "message": "C01/Model.v no longer builds (C04 kernels changed shape?)"})
@@ -1106,3 +1113,556 @@ def replay(path):
         else:
             print(json.dumps(d, indent=1)[:6000])
     return 0
+
+
+# ================================================================================================ wide programs
+# Constructs OUTSIDE the Coq fragment, checked by the differential oracle only: the expected output comes from the
+# Python reference evaluator below (documented Python-like semantics: value models, lists with negative indices and
+# clamping slices, keyword arguments bound by NAME, `mut` list parameters mutate the caller's list), NOT from Coq.
+#   models with int fields, nested models (2 levels), List[Model], List[int], List[List[int]];
+#   assignment (plain and compound) through every lvalue shape: x, o.f, o.f.g, xs[i], xs[i].f, xs[i].f.g, xs[i].f.g.h, xs[i][j];
+#   list indexing (negative too), slicing with small in/out-of-order bounds, len, for-in over lists and slices;
+#   user functions with 2-3 int parameters called positionally, with in-order and out-of-order keyword arguments,
+#   mixed; `mut` list parameters; return values; function/parameter names also drawn from Rust keywords that Incan
+#   does not reserve (where, loop, final, move, ref, box).
+WIDE_CONSTRUCTS = ["model with int fields", "nested models (M1.p: M0, M2.q: M1)", "List[int]", "List[Model]", "List[List[int]]",
+                   "lvalues x, o.f, o.f.g, xs[i], xs[i].f, xs[i].f.g, xs[i].f.g.h, xs[i][j] (plain and compound)",
+                   "negative indices", "slices xs[a:b], xs[a:], xs[:b] with in/out-of-order bounds", "len", "for v in list/slice",
+                   "calls: positional / keyword in order / keyword out of order / mixed", "mut List[int] parameter", "return values",
+                   "function and parameter names from {where, loop, final, move, ref, box}"]
+WIDE_MODELS = """model M0:
+    a: int
+    b: int
+
+model M1:
+    p: M0
+    m: int
+
+model M2:
+    q: M1
+    k: int
+
+"""
+KW_FN = ["where", "loop", "final", "move", "ref", "box"]
+PLAIN_FN = ["pick", "calc", "mix", "step", "blend", "fold3"]
+KW_PARAM = ["final", "move", "ref", "box", "where", "loop"]
+PLAIN_PARAM = ["lo", "hi", "k", "n", "aa", "bb"]
+
+
+def wsrc(e):
+    k = e[0]
+    if k == "nm":
+        return e[1]
+    if k == "fld":
+        return "%s.%s" % (wsrc(e[1]), e[2])
+    if k == "idx":
+        return "%s[%s]" % (wsrc(e[1]), wsrc(e[2]))
+    if k == "len":
+        return "len(%s)" % wsrc(e[1])
+    if k == "slice":
+        return "%s[%s:%s]" % (wsrc(e[1]), "" if e[2] is None else wsrc(e[2]), "" if e[3] is None else wsrc(e[3]))
+    if k == "call":
+        args = [wsrc(a) for a in e[2]] + ["%s=%s" % (n, wsrc(a)) for n, a in e[3]]
+        return "%s(%s)" % (e[1], ", ".join(args))
+    if k == "mk":
+        return "%s(%s)" % (e[1], ", ".join("%s=%s" % (n, wsrc(a)) for n, a in e[2]))
+    if k == "list":
+        return "[" + ", ".join(wsrc(a) for a in e[1]) + "]"
+    if k == "int":
+        return str(e[1])
+    if k == "un":
+        s = wsrc(e[2])
+        return "-" + (" " + s if s.startswith("-") else s)
+    if k == "paren":
+        return "(" + wsrc(e[1]) + ")"
+    if k == "bin":
+        return "%s %s %s" % (wsrc(e[2]), e[1], wsrc(e[3]))
+    raise ValueError(k)
+
+
+def wsrc_block(b, ind):
+    pad, out = "    " * ind, []
+    for s in b:
+        k = s[0]
+        if k == "wassign":
+            out.append("%s%s%s = %s" % (pad, {"mut": "mut ", "let": "let ", "inferred": ""}[s[1]], s[2], wsrc(s[3])))
+        elif k == "lassign":
+            out.append("%s%s %s= %s" % (pad, wsrc(s[1]), s[2] or "", wsrc(s[3])))
+        elif k == "print":
+            out.append("%sprintln(%s)" % (pad, wsrc(s[1])))
+        elif k == "forin":
+            out.append("%sfor %s in %s:" % (pad, s[1], wsrc(s[2])))
+            out += wsrc_block(s[3], ind + 1)
+        elif k == "if":
+            out.append("%sif %s:" % (pad, wsrc(s[1])))
+            out += wsrc_block(s[2], ind + 1)
+            if s[3] is not None:
+                out.append("%selse:" % pad)
+                out += wsrc_block(s[3], ind + 1)
+        elif k == "callst":
+            out.append(pad + wsrc(s[1]))
+        elif k == "ret":
+            out.append("%sreturn %s" % (pad, wsrc(s[1])))
+        else:
+            raise ValueError(k)
+    return out
+
+
+def ends_with_cast(e):
+    """the emitted Rust of e ends in `as i64` (a `len(..)` in final position)"""
+    k = e[0]
+    if k == "len":
+        return True
+    if k == "paren":
+        return ends_with_cast(e[1])
+    if k == "un":
+        return ends_with_cast(e[2])
+    if k == "bin" and e[1] not in ("//", "%"):
+        return ends_with_cast(e[3])
+    return False
+
+
+class Ret(Exception):
+    def __init__(self, v):
+        self.v = v
+
+
+class WEval:
+    """reference evaluator (documented semantics) for wide programs"""
+
+    def __init__(self, helpers):
+        self.helpers = helpers          # name -> (params [(name, kind)], body)
+        self.out = []
+
+    def ev(self, e, env):
+        k = e[0]
+        if k == "int":
+            return e[1]
+        if k == "nm":
+            return env[e[1]]
+        if k == "fld":
+            return self.ev(e[1], env)[e[2]]
+        if k == "idx":
+            return self.ev(e[1], env)[self.ev(e[2], env)]          # Python negative indexing = list_get's
+        if k == "len":
+            return len(self.ev(e[1], env))
+        if k == "slice":
+            xs = self.ev(e[1], env)
+            a = None if e[2] is None else self.ev(e[2], env)
+            b = None if e[3] is None else self.ev(e[3], env)
+            return list(xs[a:b])
+        if k == "mk":
+            return {n: self.ev(a, env) for n, a in e[2]}
+        if k == "list":
+            return [self.ev(a, env) for a in e[1]]
+        if k == "paren":
+            return self.ev(e[1], env)
+        if k == "un":
+            return -self.ev(e[2], env)
+        if k == "bin":
+            l, r = self.ev(e[2], env), self.ev(e[3], env)
+            return {"+": lambda: l + r, "-": lambda: l - r, "*": lambda: l * r, "//": lambda: l // r, "%": lambda: l % r,
+                    "==": lambda: l == r, "!=": lambda: l != r, "<": lambda: l < r, "<=": lambda: l <= r, ">": lambda: l > r,
+                    ">=": lambda: l >= r}[e[1]]()
+        if k == "call":
+            params, body = self.helpers[e[1]]
+            vals = [self.ev(a, env) for a in e[2]]
+            kw = {n: self.ev(a, env) for n, a in e[3]}
+            loc = {}
+            pos = list(vals)
+            for pn, kind in params:               # keyword arguments bind by name, the rest positionally in order
+                if pn in kw:
+                    loc[pn] = kw[pn]
+                else:
+                    loc[pn] = pos.pop(0)
+                if kind == "list":                # a non-`mut` list parameter is the callee's own copy
+                    loc[pn] = list(loc[pn])
+            try:
+                self.run(body, loc)
+            except Ret as r:
+                return r.v
+            return None
+        raise ValueError(k)
+
+    def assign(self, lv, v, env):
+        if lv[0] == "nm":
+            env[lv[1]] = v
+        elif lv[0] == "fld":
+            self.ev(lv[1], env)[lv[2]] = v
+        else:
+            self.ev(lv[1], env)[self.ev(lv[2], env)] = v
+
+    def run(self, b, env):
+        for s in b:
+            k = s[0]
+            if k == "wassign":
+                env[s[2]] = self.ev(s[3], env)
+            elif k == "lassign":
+                v = self.ev(s[3], env)
+                if s[2]:
+                    v = self.ev(("bin", s[2], s[1], ("int", v)), env)
+                self.assign(s[1], v, env)
+            elif k == "print":
+                self.out.append((0, self.ev(s[1], env)))
+            elif k == "forin":
+                for x in list(self.ev(s[2], env)):
+                    env[s[1]] = x
+                    self.run(s[3], env)
+            elif k == "if":
+                if self.ev(s[1], env):
+                    self.run(s[2], env)
+                elif s[3] is not None:
+                    self.run(s[3], env)
+            elif k == "callst":
+                self.ev(s[1], env)
+            elif k == "ret":
+                raise Ret(self.ev(s[1], env))
+
+
+class WideSuite:
+    """a set of helper functions (defined once per generated program) + test functions that use them"""
+
+    def __init__(self, rng, n_cases):
+        self.rng = rng
+        names = rng.sample(KW_FN, 4) + rng.sample(PLAIN_FN, 3)
+        rng.shuffle(names)
+        self.helpers, self.helper_src = {}, []
+        self.int_fns, self.mut_fns, self.list_fns = [], [], []
+        for i, fn in enumerate(names):
+            kind = "int" if i < 4 else ("mut" if i < 6 else "list")
+            self.make_helper(fn, kind)
+        self.cases = [self.case() for _ in range(n_cases)]
+
+    def pnames(self, n):
+        pool = self.rng.sample(KW_PARAM, 3) + self.rng.sample(PLAIN_PARAM, 3)
+        return self.rng.sample(pool, n)
+
+    def make_helper(self, fn, kind):
+        rng = self.rng
+        if kind == "int":
+            ps = self.pnames(rng.choice([2, 3, 3]))
+            # an asymmetric combination: swapping two arguments changes the result
+            terms = [("bin", "*", ("nm", p), ("int", c)) for p, c in zip(ps, rng.sample([1, 3, 7, 10, 100], len(ps)))]
+            e = terms[0]
+            for t in terms[1:]:
+                e = ("bin", rng.choice(["+", "-"]), e, t)
+            if rng.random() < 0.4:
+                e = ("bin", "%", ("paren", e), ("int", rng.choice([97, 1009])))
+            body = [("ret", e)]
+            params = [(p, "int") for p in ps]
+            sig = ", ".join("%s: int" % p for p in ps) + ") -> int"
+            self.int_fns.append(fn)
+        elif kind == "mut":
+            ps = self.pnames(2)
+            xs, k = ps
+            body = [("lassign", ("idx", ("nm", xs), ("nm", k)), rng.choice(["+", "*", None]), ("int", rng.randint(2, 9))),
+                    ("lassign", ("idx", ("nm", xs), ("int", 0)), "+", ("nm", k))]
+            params = [(xs, "mutlist"), (k, "int")]
+            sig = "mut %s: List[int], %s: int) -> None" % (xs, k)
+            self.mut_fns.append(fn)
+        else:
+            ps = self.pnames(2)
+            xs, k = ps
+            body = [("wassign", "mut", "acc", ("nm", k)),
+                    ("forin", "vv", ("nm", xs), [("lassign", ("nm", "acc"), "+", ("bin", "*", ("nm", "vv"), ("int", 2)))]),
+                    ("ret", ("nm", "acc"))]
+            params = [(xs, "list"), (k, "int")]
+            sig = "%s: List[int], %s: int) -> int" % (xs, k)
+            self.list_fns.append(fn)
+        self.helpers[fn] = (params, body)
+        self.helper_src.append("def %s(%s:\n%s\n" % (fn, sig, "\n".join(wsrc_block(body, 1))))
+
+    # ---- test functions
+    def lit(self):
+        return ("int", self.rng.randint(0, 60))
+
+    def mk0(self):
+        return ("mk", "M0", [("a", self.lit()), ("b", self.lit())])
+
+    def mk1(self):
+        return ("mk", "M1", [("p", self.mk0()), ("m", self.lit())])
+
+    def mk2(self):
+        return ("mk", "M2", [("q", self.mk1()), ("k", self.lit())])
+
+    def case(self):
+        rng = self.rng
+        self.vars = {}
+        self.has_ys = False
+        body = []
+        decl = [("o0", "M0", self.mk0()), ("o1", "M1", self.mk1()), ("o2", "M2", self.mk2())]
+        nx = rng.randint(3, 6)
+        decl.append(("xs", ("ints", nx), ("list", [self.lit() for _ in range(nx)])))
+        nm = rng.randint(1, 3)
+        decl.append(("ms", ("L", "M1", nm), ("list", [self.mk1() for _ in range(nm)])))
+        nz = rng.randint(1, 2)
+        decl.append(("zs", ("L", "M2", nz), ("list", [self.mk2() for _ in range(nz)])))
+        ng, ni = rng.randint(1, 3), rng.randint(1, 3)
+        decl.append(("g", ("grid", ng, ni), ("list", [("list", [self.lit() for _ in range(ni)]) for _ in range(ng)])))
+        rng.shuffle(decl)
+        for n, t, e in decl[:rng.randint(4, 7)]:
+            self.vars[n] = t
+            body.append(("wassign", "mut", n, e))
+        for _ in range(rng.randint(5, 10)):
+            body += self.stmt()
+        body += self.dump()
+        return body
+
+    def index(self, n):
+        i = self.rng.randrange(n)
+        if self.rng.random() < 0.3:
+            i -= n
+        return ("int", i) if i >= 0 else ("un", "neg", ("int", -i))
+
+    def int_paths(self, lv_only=False):
+        """all int-valued places reachable from the declared variables"""
+        out = []
+        for n, t in self.vars.items():
+            base = ("nm", n)
+            if t == "M0":
+                out += [("fld", base, f) for f in "ab"]
+            elif t == "M1":
+                out += [("fld", base, "m")] + [("fld", ("fld", base, "p"), f) for f in "ab"]
+            elif t == "M2":
+                out += [("fld", base, "k"), ("fld", ("fld", base, "q"), "m")] + [("fld", ("fld", ("fld", base, "q"), "p"), f) for f in "ab"]
+            elif t[0] == "ints":
+                out += [("idx", base, self.index(t[1])) for _ in range(2)]
+            elif t[0] == "L":
+                el = ("idx", base, self.index(t[2]))
+                if t[1] == "M1":
+                    out += [("fld", el, "m")] + [("fld", ("fld", el, "p"), f) for f in "ab"]
+                else:
+                    out += [("fld", el, "k"), ("fld", ("fld", el, "q"), "m")] + [("fld", ("fld", ("fld", el, "q"), "p"), f) for f in "ab"]
+            elif t[0] == "grid":
+                out.append(("idx", ("idx", base, self.index(t[1])), self.index(t[2])))
+        return out
+
+    def bound(self):
+        b = self.rng.randint(-7, 7)
+        return ("int", b) if b >= 0 else ("un", "neg", ("int", -b))
+
+    def slice_of(self, n):
+        r = self.rng.random()
+        a = None if r < 0.15 else self.bound()
+        b = None if 0.15 <= r < 0.3 else self.bound()
+        return ("slice", ("nm", n), a, b)
+
+    def call(self, small):
+        rng = self.rng
+        fn = rng.choice(self.int_fns)
+        params = [p for p, _ in self.helpers[fn][0]]
+        vals = {p: small() for p in params}
+        mode = rng.choice(["pos", "kw", "kwrev", "mixed", "kwrev"])
+        if mode == "pos":
+            return ("call", fn, [vals[p] for p in params], [])
+        if mode == "kw":
+            return ("call", fn, [], [(p, vals[p]) for p in params])
+        if mode == "kwrev":
+            order = list(params)
+            while order == params:
+                rng.shuffle(order)
+            return ("call", fn, [], [(p, vals[p]) for p in order])
+        rest = params[1:]
+        rng.shuffle(rest)
+        return ("call", fn, [vals[params[0]]], [(p, vals[p]) for p in rest])
+
+    def int_expr(self, d=2):
+        rng = self.rng
+        r = rng.random()
+        paths = self.int_paths()
+        if d <= 0 or r < 0.35:
+            return rng.choice(paths) if paths and rng.random() < 0.75 else self.lit()
+        lists = [n for n, t in self.vars.items() if t[0] == "ints"]
+        if r < 0.45 and lists:
+            n = rng.choice(lists)
+            return ("len", ("nm", n)) if rng.random() < 0.4 else ("len", self.slice_of(n))
+        if r < 0.62:
+            return self.call(lambda: self.int_expr(0))
+        if r < 0.68 and lists and self.list_fns:
+            n = rng.choice(lists)
+            fn = rng.choice(self.list_fns)
+            (xs, _), (k, _) = self.helpers[fn][0]
+            arg = ("nm", n) if rng.random() < 0.5 else self.slice_of(n)
+            return ("call", fn, [arg, self.lit()], []) if rng.random() < 0.5 else ("call", fn, [], [(k, self.lit()), (xs, arg)])
+        op = rng.choice(["+", "-", "+", "*"])
+        l, rr = self.int_expr(d - 1), self.int_expr(d - 1)
+        if op == "*":
+            rr = ("int", rng.randint(0, 9))
+        # operands of the same or tighter binding only (outside the grouping finding)
+        if op == "-" and rr[0] == "bin":
+            rr = ("int", rng.randint(0, 9))
+        if op == "*" and l[0] == "bin":
+            l = ("int", rng.randint(0, 9))
+        return ("bin", op, l, rr)
+
+    def stmt(self):
+        rng = self.rng
+        r = rng.random()
+        paths = self.int_paths()
+        lists = [n for n, t in self.vars.items() if t[0] == "ints"]
+        if r < 0.45 and paths:
+            lv = rng.choice(paths)
+            op = rng.choice([None, None, "+", "-", "*"])
+            e = self.int_expr(2) if op is None else self.int_expr(1)
+            if op == "*":
+                e = ("int", rng.randint(0, 3))
+            if op == "-":
+                e = self.int_expr(0)       # `x -= a - b` is emitted as `x = x - a - b` (finding grouping): atoms only
+            return [("lassign", lv, op, e)]
+        if r < 0.58:
+            return [("print", self.int_expr(2))]
+        if r < 0.70 and lists:
+            n = rng.choice(lists)
+            it = self.slice_of(n) if rng.random() < 0.8 else ("nm", n)
+            return [("forin", "w", it, [("print", ("bin", "+", ("nm", "w"), self.lit()))])]
+        if r < 0.82 and lists and self.mut_fns:
+            n = rng.choice(lists)
+            fn = rng.choice(self.mut_fns)
+            (xs, _), (k, _) = self.helpers[fn][0]
+            i = self.index(self.vars[n][1])
+            c = ("call", fn, [("nm", n), i], []) if rng.random() < 0.5 else \
+                (("call", fn, [], [(k, i), (xs, ("nm", n))]) if rng.random() < 0.5 else ("call", fn, [("nm", n)], [(k, i)]))
+            return [("callst", c)]
+        if r < 0.90:
+            c = ("bin", rng.choice(["<", ">", "==", "!=", "<=", ">="]), self.int_expr(1), self.int_expr(1))
+            if c[1] == "<" and ends_with_cast(c[2]):
+                c = ("bin", ">", c[3], c[2])      # `len(xs) < n` is emitted `xs.len() as i64 < n` (C02 finding len-lt): avoided here
+            return [("if", c, [("print", self.int_expr(1))], [("print", self.int_expr(1))] if rng.random() < 0.5 else None)]
+        if lists and not self.has_ys:
+            n = rng.choice(lists)
+            self.has_ys = True
+            return [("wassign", "let", "ys", self.slice_of(n)), ("print", ("len", ("nm", "ys"))),
+                    ("forin", "w", ("nm", "ys"), [("print", ("nm", "w"))])]
+        return [("print", self.int_expr(2))]
+
+    def dump(self):
+        out = []
+        for n, t in sorted(self.vars.items()):
+            base = ("nm", n)
+            if t in ("M0", "M1", "M2"):
+                saved, self.vars = self.vars, {n: t}
+                out += [("print", p) for p in self.int_paths()]
+                self.vars = saved
+            elif t[0] == "ints":
+                out.append(("forin", "w", base, [("print", ("nm", "w"))]))
+            elif t[0] == "L":
+                for i in range(t[2]):
+                    el = ("idx", base, ("int", i))
+                    if t[1] == "M1":
+                        out += [("print", ("fld", el, "m"))] + [("print", ("fld", ("fld", el, "p"), f)) for f in "ab"]
+                    else:
+                        out += [("print", ("fld", el, "k")), ("print", ("fld", ("fld", el, "q"), "m"))] + \
+                               [("print", ("fld", ("fld", ("fld", el, "q"), "p"), f)) for f in "ab"]
+            elif t[0] == "grid":
+                for i in range(t[1]):
+                    out.append(("forin", "w", ("idx", base, ("int", i)), [("print", ("nm", "w"))]))
+        return out
+
+    def expected(self, i):
+        ev = WEval(self.helpers)
+        ev.run(self.cases[i], {})
+        return ev.out
+
+    def fn_source(self, i, name):
+        return "def %s() -> None:\n%s\n" % (name, "\n".join(wsrc_block(self.cases[i], 1)))
+
+    def prelude(self):
+        return WIDE_MODELS + "\n".join(self.helper_src) + "\n"
+
+    def program(self, idxs):
+        parts = [self.prelude()] + [self.fn_source(i, "w%d" % i) for i in idxs]
+        main = ["def main() -> None:"]
+        for i in idxs:
+            main += ['    println("@@w%d")' % i, "    w%d()" % i]
+        main.append('    println("@@end")')
+        return "\n".join(parts) + "\n" + "\n".join(main) + "\n"
+
+
+def wide_culprits(msg, main_rs):
+    try:
+        lines = open(main_rs).read().split("\n")
+    except OSError:
+        return set()
+    starts = [(i + 1, m.group(1)) for i, l in enumerate(lines) for m in [re.match(r"\s*(?:pub )?fn (?:r#)?(\w+)\(", l)] if m]
+    out = set()
+    for b in re.split(r"\n(?=error|warning)", msg):
+        if not b.startswith("error") or b.startswith("error: could not compile") or b.startswith("error: aborting"):
+            continue
+        m = re.search(r"--> src/main\.rs:(\d+):", b)
+        if m:
+            owner = None
+            for st, name in starts:
+                if st <= int(m.group(1)):
+                    owner = name
+            if owner:
+                out.add(owner)
+    return out
+
+
+def wide_oracle(chk, binary, n_cases, tag):
+    """Builds one generated program of wide test functions with the real `incan build` path, runs it, compares every
+    function's output with the reference evaluator. Returns (fails, stats)."""
+    suite = WideSuite(chk.rng, n_cases)
+    idxs = list(range(n_cases))
+    fails, stats = [], {"wide_functions": n_cases}
+    # every function alone through the real front end: must parse, check and generate
+    progs = [suite.prelude() + suite.fn_source(i, "t0") + "def main() -> None:\n    t0()\n" for i in idxs]
+    real = emit_real(binary, progs)
+    ok_idx = []
+    for i in idxs:
+        r = real[i]
+        why = None
+        if "panic" in r:
+            why = "the compiler panicked: " + r["panic"]
+        elif r.get("parse") != "ok":
+            why = "valid program rejected by the parser: %s" % r.get("parse")
+        elif r["check"]:
+            why = "valid program rejected by the checker: %s" % r["check"][:2]
+        elif r["gen"] != "ok" or not r.get("syn"):
+            why = "the checker accepts this program but code generation fails: %s" % r["gen"]
+        if why:
+            fails.append({"case": progs[i], "program": progs[i], "why": why, "oracle": "python reference evaluator (wide constructs, outside the Coq fragment)"})
+        else:
+            ok_idx.append(i)
+    stem = "%sw%dp%d" % (tag, chk.seed % 100000, os.getpid() % 100000)
+    d = scratch_dir(tag + "w")
+    try:
+        src = suite.program(ok_idx)
+        ok, msg, path = build_programs(binary, d, [(stem, src)])[stem]
+        if not ok:
+            bad = wide_culprits(msg, os.path.join(d, "out_" + stem, "src", "main.rs"))
+            errs = "\n".join(b for b in re.split(r"\n(?=error|warning)", msg) if b.startswith("error"))[:2500]
+            culprits = [i for i in ok_idx if "w%d" % i in bad]
+            for i in (culprits or ok_idx[:2])[:8]:
+                fails.append({"case": suite.prelude() + suite.fn_source(i, "t0"), "program": progs[i], "stage": "rustc",
+                              "expected": suite.expected(i), "actual": errs,
+                              "why": "the checker accepts this program, code generation succeeds, rustc rejects the generated Rust",
+                              "oracle": "python reference evaluator (wide constructs, outside the Coq fragment)"})
+            stats["wide_built"] = False
+            # the other functions are still compared: rebuild once without the functions rustc rejected
+            ok_idx = [i for i in ok_idx if i not in culprits] if culprits else []
+            if ok_idx:
+                clean_gen_target([stem])
+                stem = stem + "r"
+                ok, msg, path = build_programs(binary, d, [(stem, suite.program(ok_idx))])[stem]
+        if ok:
+            stats["wide_built"] = stats.get("wide_built", True)
+            obs, (rc, err) = run_binary(path, ["w%d" % i for i in ok_idx])
+            n_ok = 0
+            for i in ok_idx:
+                exp = suite.expected(i)
+                got = obs.get("w%d" % i)
+                chk.count_case(("wide", suite.fn_source(i, "t0")), nontrivial=True)
+                if got is None or got[1] != 0 or list(got[0]) != exp:
+                    fails.append({"case": suite.prelude() + suite.fn_source(i, "t0"), "program": progs[i],
+                                  "expected_by_reference_evaluator": exp, "actual_binary": got,
+                                  "why": "the compiled program does not behave as the source says",
+                                  "oracle": "python reference evaluator (wide constructs, outside the Coq fragment)"})
+                else:
+                    n_ok += 1
+            stats["wide_functions_agreeing"] = n_ok
+    finally:
+        shutil.rmtree(d, ignore_errors=True)
+        clean_gen_target([stem])
+    vlib.log("[c01] wide oracle: %d functions, %d failures" % (n_cases, len(fails)))
+    return fails, stats
